@@ -406,9 +406,30 @@ class _Cond(sp.Translator):
         return super().cond(e)
 
 
+class Branch:
+    """One exit of an escaper's decision list: the names that reach it (`guard`, exact: the conjunction of the tests on the way) and what it
+    returns for them."""
+    __slots__ = ('guard', 'value', 'line', 'path', 'kind', 'delim', 'inner', 'transform', 'units', 'chars', 'label')
+
+    def __init__(self, guard: R.Lang, value: ast.AST, line: int, path: List[str]):
+        self.guard, self.value, self.line, self.path = guard, value, line, path
+        self.kind = ''          # 'bare' | 'escaped'
+        self.delim = ''
+        self.inner: Optional[ast.AST] = None
+        self.transform = ''     # filled by the caller: 'identity' | 'escape_str(backticked=...)' | 'pipeline ...'
+        self.units: List['Unit'] = []
+        self.chars: Optional[R.CharSet] = None
+        self.label = ''
+
+    def when(self) -> str:
+        return ' and '.join(self.path) if self.path else 'always'
+
+
 class Escaper:
-    """`if <test on s>: return s  else: return D + f(s) + D`  (either branch order; the test is a regex call or any combination of string
-    predicates engines/strpred can turn into a regular language)."""
+    """A decision list over the name: `if <test on s>: return <form> [elif ...] ... return <form>` (if / elif / else nesting, early returns,
+    single-assignment locals), every <form> being the name itself (bare) or <delimiter> + f(s) + <delimiter>.  Each test is a regex call or
+    any combination of string predicates engines/strpred can turn into a regular language, so every exit gets the exact language of the
+    names that reach it."""
 
     def __init__(self, ctx: Ctx, m: pf.Module, name: str):
         self.m = m
@@ -416,40 +437,92 @@ class Escaper:
         fn = m.func(name)
         self.fn = fn
         params = [a.arg for a in fn.args.args]
-        ctx.need(len(params) == 1, f'{m.rel}::{name}: expected one parameter')
+        ctx.need(len(params) == 1 and not fn.args.vararg and not fn.args.kwarg and not fn.args.kwonlyargs, f'{m.rel}::{name}: expected one parameter')
         self.param = params[0]
-        body = [s for s in fn.body if not (isinstance(s, ast.Expr) and isinstance(s.value, ast.Constant))]
-        ctx.need(body and isinstance(body[0], ast.If), f'{m.rel}::{name}: body does not start with `if <test on the name>`')
-        iff = body[0]
-        rest = body[1:]
-        then = list(iff.body)
-        other = list(iff.orelse) if iff.orelse else rest
-        ctx.need(not (iff.orelse and rest), f'{m.rel}::{name}: statements after an if/else')
+        for n in pf.walk_shallow(fn):
+            if isinstance(n, ast.Name) and isinstance(n.ctx, (ast.Store, ast.Del)) and n.id == self.param:
+                raise AnalysisError(f'{m.rel}::{name}: the parameter is rebound')
+        self.branches: List[Branch] = []
+        self.test_line = 0
+        rest = self._walk([s for s in fn.body], R.everything(), [])
+        if rest is not None and R.shortest(rest) is not None:
+            raise AnalysisError(f'{m.rel}::{name}: some names fall off the end of the function (no return)')
+        live = []
+        for b in self.branches:
+            if R.shortest(b.guard) is None:
+                ctx.info(f'{m.rel}::{name}: the exit `return {pf.nsrc(b.value)[:50]}` (when {b.when()}) is unreachable; ignored')
+                continue
+            live.append(b)
+        self.branches = live
+        for b in self.branches:
+            v = b.value
+            if isinstance(v, ast.Name) and v.id == self.param:
+                b.kind = 'bare'
+            else:
+                b.delim, b.inner = _delimited(ctx, m, fn, v)
+                b.kind = 'escaped'
+        bare = [b for b in self.branches if b.kind == 'bare']
+        self.escaped = [b for b in self.branches if b.kind == 'escaped']
+        ctx.need(bool(bare) and bool(self.escaped), f'{m.rel}::{name}: exactly one branch must return the name unchanged' if not bare else
+                 f'{m.rel}::{name}: unrecognised escaping branch')
+        ctx.need(len({b.delim for b in self.escaped}) == 1, f'{m.rel}::{name}: the escaping exits use different delimiters')
+        lang = bare[0].guard
+        for b in bare[1:]:
+            lang = lang | b.guard
+        self.why = ' / '.join(f'it satisfies `{b.when()}`' for b in bare)
+        self.bare = lang
+        self.bare.label = f'{name}: bare names ({self.why})'
+        self.escaped_expr = self.escaped[-1].value  # the general form (kept for callers that know a single escaping exit)
 
-        def is_bare(stmts: List[ast.stmt]) -> bool:
-            return len(stmts) == 1 and isinstance(stmts[0], ast.Return) and isinstance(stmts[0].value, ast.Name) and stmts[0].value.id == self.param
-        ctx.need(is_bare(then) != is_bare(other), f'{m.rel}::{name}: exactly one branch must return the name unchanged')
-        esc_branch = other if is_bare(then) else then
-        ctx.need(len(esc_branch) == 1 and isinstance(esc_branch[0], ast.Return) and esc_branch[0].value is not None, f'{m.rel}::{name}: unrecognised escaping branch')
-        self.escaped_expr = esc_branch[0].value
-        self.test_line = iff.lineno
+    def _test(self, test: ast.AST) -> R.Lang:
+        test = pf.expand_locals(self.fn, test)
         rc = None
         try:
-            rc = sp.regex_call(m, fn, iff.test)
+            rc = sp.regex_call(self.m, self.fn, test)
         except AnalysisError:
             rc = None
         if rc is not None and isinstance(rc[2], ast.Name) and rc[2].id == self.param:
             rd, mode, _subj = rc
-            lang = R.from_regex(rd.pattern, rd.flags, mode)
-            self.why = f'it matches {rd.pattern!r} under {mode}'
-        else:
-            lang = _Cond(m, fn, self.param).cond(iff.test)
-            self.why = f'it satisfies `{pf.nsrc(iff.test)}`'
-        if not is_bare(then):
-            lang = ~lang
-            self.why = f'it does not satisfy `{pf.nsrc(iff.test)}`'
-        self.bare = lang
-        self.bare.label = f'{name}: bare names ({self.why})'
+            return R.from_regex(rd.pattern, rd.flags, mode)
+        return _Cond(self.m, self.fn, self.param).cond(test)
+
+    def _walk(self, stmts: List[ast.stmt], reach: R.Lang, path: List[str]) -> Optional[R.Lang]:
+        """Record the exits of `stmts` entered by the names in `reach`; the names that fall through (None: nobody does)."""
+        where = f'{self.m.rel}::{self.name}'
+        path = list(path)
+        for st in stmts:
+            if isinstance(st, ast.Expr) and isinstance(st.value, ast.Constant):
+                continue
+            if isinstance(st, ast.Pass):
+                continue
+            if isinstance(st, ast.If):
+                if not self.test_line:
+                    self.test_line = st.lineno
+                T = self._test(st.test)
+                src = pf.nsrc(st.test)
+                a = self._walk(list(st.body), reach & T, path + [src])
+                b = self._walk(list(st.orelse), reach & ~T, path + [f'not ({src})'])
+                if a is None and b is None:
+                    return None
+                if a is None:
+                    reach = b  # type: ignore[assignment]
+                    path.append(f'not ({src})')
+                elif b is None:
+                    reach = a
+                    path.append(src)
+                else:
+                    reach = a | b
+                continue
+            if isinstance(st, ast.Return):
+                if st.value is None:
+                    raise AnalysisError(f'{where}: bare `return`')
+                self.branches.append(Branch(reach, pf.expand_locals(self.fn, st.value), st.lineno, path))
+                return None
+            if isinstance(st, ast.Assign) and len(st.targets) == 1 and isinstance(st.targets[0], ast.Name) and st.targets[0].id != self.param \
+                    and pf.single_def(self.fn, st.targets[0].id) is st.value:
+                continue  # a single-assignment local: substituted where it is used
+            raise AnalysisError(f'{where}: unrecognised escaping branch (statement `{pf.nsrc(st)[:60]}`)')
+        return reach
 
 
 def _delimited(ctx: Ctx, m: pf.Module, fn: pf.FuncDef, e: ast.AST) -> Tuple[str, ast.AST]:
@@ -718,23 +791,92 @@ def _show(s: Optional[str]) -> str:
     return 'none' if s is None else ascii(s)
 
 
-def _name_for(units: List[Unit], u: Unit, cp: int, bare_dfa: R.DFA) -> Tuple[str, str]:
-    """A name whose escaped rendering contains unit u at cp and that is NOT emitted bare: (name, escaped body)."""
-    name = chr(cp)
-    if bare_dfa.accepts(name):
-        name = name + ' '
-        if bare_dfa.accepts(name):
-            raise AnalysisError('cannot build a non-bare example name')
+def _contains(cs: R.CharSet) -> R.Lang:
+    return R.lang(R.seq(R.star(R.anychar()), R.chars(cs), R.star(R.anychar())), 'contains')
+
+
+def occurring_chars(L: R.Lang) -> R.CharSet:
+    """The code points that occur in at least one string of L: the labels of the transitions of its automaton that lie on a path from the
+    initial to an accepting state (exact)."""
+    alpha = R.alphabet_for([L])
+    d = R.to_dfa(L, alpha)
+    n = d.n_states
+    rev: List[List[int]] = [[] for _ in range(n)]
+    for p_, row in enumerate(d.trans):
+        for q in set(row):
+            rev[q].append(p_)
+    alive = [bool(a) for a in d.accept]
+    stack = [i for i in range(n) if alive[i]]
+    while stack:
+        q = stack.pop()
+        for p_ in rev[q]:
+            if not alive[p_]:
+                alive[p_] = True
+                stack.append(p_)
+    seen = {0}
+    stack = [0]
+    used = set()
+    while stack:
+        p_ = stack.pop()
+        for k, q in enumerate(d.trans[p_]):
+            if alive[q]:
+                used.add(k)
+                if q not in seen:
+                    seen.add(q)
+                    stack.append(q)
+    if not alive[0]:
+        return R.CharSet.empty()
+    out: List[Tuple[int, int]] = []
+    for k in used:
+        out += list(alpha.classes[k].ranges)
+    return R.CharSet(out)
+
+
+def restrict_units(units: List[Unit], cs: R.CharSet) -> List[Unit]:
+    out = []
+    for u in units:
+        for lo, hi in (R.CharSet([(u.lo, u.hi)]) & cs).ranges:
+            out.append(Unit(lo, hi, list(u.parts)))
+    return out
+
+
+def _name_for(units: List[Unit], u: Unit, cp: int, guard: Optional[R.Lang]) -> Tuple[str, str]:
+    """A name whose rendering contains unit u at cp and that takes the exit guarded by `guard` (a shortest such name, read off the
+    automaton): (name, escaped body)."""
+    if guard is None:
+        name = chr(cp)
+    else:
+        name = R.shortest(guard & _contains(R.CharSet([(cp, cp)])))  # type: ignore[assignment]
+        if name is None:
+            raise AnalysisError(f'cannot build an example name containing U+{cp:04X}')
     return name, encode_with(units, name)
 
 
+def _rejected_middle(L_unit_chars: R.CharSet, delim: str, target: R.Lang) -> R.CharSet:
+    """{ c in L_unit_chars : delim + c + delim is not in target }, decided class by class on the target automaton."""
+    alpha = R.alphabet_for([target], [L_unit_chars])
+    d = R.to_dfa(target, alpha)
+    p0 = d.run(delim)
+    bad: List[Tuple[int, int]] = []
+    for k, cls in enumerate(alpha.classes):
+        part = cls & L_unit_chars
+        if not part:
+            continue
+        q = d.trans[p0][k]
+        for ch in delim:
+            q = d.trans[q][alpha.class_of(ord(ch))]
+        if not d.accept[q]:
+            bad += list(part.ranges)
+    return R.CharSet(bad)
+
+
 def check_units_against(ctx: Ctx, rule: str, cons_prefix: str, units: List[Unit], delim: str, target: R.Lang, target_name: str,
-                        bare: Optional[R.Lang], src_file: str, src_line: int, emitter: str) -> Dict[str, bool]:
-    """One instance per unit kind: delim+unit+delim must be in the target language.  Returns kind -> accepted."""
+                        guard: Optional[R.Lang], src_file: str, src_line: int, emitter: str) -> Dict[str, bool]:
+    """One instance per unit kind: delim+unit+delim must be in the target language.  `guard`: the names that are rendered with this table
+    (None: every string).  Returns kind -> accepted."""
     by_kind: Dict[str, List[Unit]] = {}
     for u in split_by_width(units):
         by_kind.setdefault(u.kind(), []).append(u)
-    bare_dfa = R.to_dfa(bare, R.alphabet_for([bare])) if bare is not None else None
     result: Dict[str, bool] = {}
     flat = split_by_width(units)
     for kind, us in by_kind.items():
@@ -750,13 +892,16 @@ def check_units_against(ctx: Ctx, rule: str, cons_prefix: str, units: List[Unit]
         cands = sorted(((cp, u) for u in us for cp in u.examples()), key=lambda t: (t[0] not in (0xE9, 0x1F600, 0x4E2D), t[0]))
         # characters of the automaton's witness are candidates too (raw units: the offending character itself)
         cands = [(ord(ch), u) for ch in w for u in us if u.lo <= ord(ch) <= u.hi and any(p[0] == 'self' for p in u.parts)] + cands
+        which = ''
+        if all(len(u.parts) == 1 and u.parts[0][0] == 'self' for u in us):
+            rej = _rejected_middle(R.CharSet([(u.lo, u.hi) for u in us]), delim, target)
+            if rej:
+                which = f' (the offending character(s): {rej.describe()})'
+                cands = [(rej.min(), u) for u in us if u.lo <= rej.min() <= u.hi] + cands
         for cp, u in cands:
             text = delim + u.output(cp) + delim
             if not R.accepts(target, text):
-                if bare_dfa is not None:
-                    name, body = _name_for(flat, u, cp, bare_dfa)
-                else:
-                    name, body = chr(cp), u.output(cp)
+                name, body = _name_for(flat, u, cp, guard)
                 full = delim + body + delim
                 if not R.accepts(target, full):
                     ex = f'the name {ascii(name)} is emitted as {ascii(full)}'
@@ -764,7 +909,7 @@ def check_units_against(ctx: Ctx, rule: str, cons_prefix: str, units: List[Unit]
         if not ex:
             raise AnalysisError(f'{cons}: the unit language is not included in {target_name} (witness {w!r}) but no concrete name reproduces it')
         n = sum(u.hi - u.lo + 1 for u in us)
-        ctx.bad(rule, cons, f'{emitter} emits {kind!r} for {n} code point(s) (U+{us[0].lo:04X}..), which {target_name} does not accept: {ex}',
+        ctx.bad(rule, cons, f'{emitter} emits {kind!r} for {n} code point(s) (U+{us[0].lo:04X}..){which}, which {target_name} does not accept: {ex}',
                 src_file, src_line, extra={'witness': w})
     return result
 
@@ -783,6 +928,65 @@ def _method(c: ast.ClassDef, name: str) -> Optional[ast.FunctionDef]:
         if isinstance(st, ast.FunctionDef) and st.name == name:
             return st
     return None
+
+
+_TERMINAL_BASES = ('parsimonious', 'builtins', 'typing', 'abc')
+
+
+def flat_class(m: pf.Module, c: ast.ClassDef, _depth: int = 0) -> ast.ClassDef:
+    """The class as Python's attribute lookup sees it: its own members plus the members it inherits from base classes defined in the same
+    module (own definitions win; single chain of repository bases only).  The copy keeps the name of `c`, so constructs are named after
+    the class the program instantiates whether or not a shared base class was extracted.  A base that cannot be read (imported from another
+    repository module, an expression, several repository bases) -> AnalysisError."""
+    if _depth > 6:
+        raise AnalysisError(f'{m.rel}::{c.name}: inheritance chain too deep')
+    local = {x.name: x for x in m.tree.body if isinstance(x, ast.ClassDef)}
+    imports = sp.imports_of(m)
+    inherited: List[ast.ClassDef] = []
+    for b in c.bases:
+        d = pf.dotted(b)
+        if d is None:
+            raise AnalysisError(f'{m.rel}::{c.name}: base class `{pf.nsrc(b)[:40]}` is not a name')
+        head = d.split('.')[0]
+        if d in local and len([x for x in ast.walk(m.tree) if isinstance(x, ast.ClassDef) and x.name == d]) == 1 and d != c.name:
+            inherited.append(flat_class(m, local[d], _depth + 1))
+        elif d == 'object' or imports.get(head, '').split('.')[0] in _TERMINAL_BASES:
+            continue
+        else:
+            raise AnalysisError(f'{m.rel}::{c.name}: base class `{d}` is not defined in this module; its methods are not read')
+    if c.keywords:
+        raise AnalysisError(f'{m.rel}::{c.name}: class keywords (metaclass) are not modelled')
+    if not inherited:
+        return c
+    if len(inherited) > 1:
+        raise AnalysisError(f'{m.rel}::{c.name}: several repository base classes; the method resolution order is not modelled')
+
+    def bound(st: ast.stmt) -> set:
+        if isinstance(st, (ast.FunctionDef, ast.AsyncFunctionDef, ast.ClassDef)):
+            return {st.name}
+        if isinstance(st, (ast.Assign, ast.AnnAssign, ast.AugAssign)):
+            ts = st.targets if isinstance(st, ast.Assign) else [st.target]
+            return {x.id for t in ts for x in ast.walk(t) if isinstance(x, ast.Name)}
+        return set()
+    own = set()
+    for st in c.body:
+        own |= bound(st)
+    body = list(c.body)
+    for st in inherited[0].body:
+        names = bound(st)
+        if not names:
+            if isinstance(st, (ast.Expr, ast.Pass)):
+                continue  # docstring
+            raise AnalysisError(f'{m.rel}::{inherited[0].name}: class body statement `{pf.nsrc(st)[:40]}` is not modelled for inheritance')
+        if names <= own:
+            continue
+        if names & own:
+            raise AnalysisError(f'{m.rel}::{c.name}: partially overrides `{pf.nsrc(st)[:40]}` of its base')
+        body.append(st)
+    out = ast.ClassDef(name=c.name, bases=[], keywords=[], body=body, decorator_list=list(c.decorator_list))
+    if hasattr(c, 'type_params'):
+        out.type_params = []  # type: ignore[attr-defined]
+    return ast.copy_location(out, c)
 
 
 class Templates:
@@ -1758,6 +1962,7 @@ def check_parse_flow(ctx: Ctx, mt: pf.Module, G: P.Grammar) -> None:
     for d in fl.decorated:
         ctx.ok('R7', f'{d}::keyed by the arguments themselves', 'functools cache: key = the argument tuple (str equality), value = result of the call on that very argument')
     for vrel, vcls in fl.visitors:
+        vcls = flat_class(pf.load(vrel), vcls)
         why = _visitor_state(vcls)
         if why is not None:
             lossy = _visitor_memo_keys(vcls, G)
@@ -2599,6 +2804,257 @@ def _render(parts: List[tuple]) -> str:
     return ascii(''.join(out))
 
 
+# --------------------------------------------------------------------------------------
+# R3: what the identifier visitors hand on, decided on the language of the printed names
+# --------------------------------------------------------------------------------------
+
+
+def _unit_edge_chars(units: List[Unit], cs: R.CharSet, where: str) -> R.CharSet:
+    """The code points whose emitted text begins (where='first') / ends ('last') with / contains ('any') a character of cs."""
+    hexd = R.CharSet.of('0123456789abcdefABCDEF')
+    out: List[Tuple[int, int]] = []
+    for u in units:
+        parts = [p_ for p_ in u.parts if not (p_[0] == 'lit' and not p_[1])]
+        if not parts:
+            continue
+        look = parts if where == 'any' else [parts[0] if where == 'first' else parts[-1]]
+        hit = False
+        for p_ in look:
+            if p_[0] == 'lit':
+                t = p_[1] if where == 'any' else p_[1][0] if where == 'first' else p_[1][-1]
+                hit = hit or any(ord(ch) in cs for ch in t)
+            elif p_[0] == 'self':
+                for lo, hi in (R.CharSet([(u.lo, u.hi)]) & cs).ranges:
+                    out.append((lo, hi))
+            elif cs & hexd:
+                raise AnalysisError('a hexadecimal digit of an escape is among the stripped characters; not modelled')
+        if hit:
+            out.append((u.lo, u.hi))
+    return R.CharSet(out)
+
+
+def _removal_ops(e: ast.AST, node_param: str, where: str) -> List[tuple]:
+    """`node.text` under a chain of slice / strip / removeprefix / removesuffix / replace / case operations (closed table), innermost
+    first; anything else -> AnalysisError."""
+    ops: List[tuple] = []
+    cur = e
+    while True:
+        if isinstance(cur, ast.Attribute) and cur.attr == 'text' and isinstance(cur.value, ast.Name) and cur.value.id == node_param:
+            return list(reversed(ops))
+        if isinstance(cur, ast.Subscript) and isinstance(cur.slice, ast.Slice):
+            sl = cur.slice
+
+            def bound(x: Optional[ast.AST]) -> Optional[int]:
+                if x is None:
+                    return None
+                v = sp._int_const(x)
+                if v is None:
+                    raise AnalysisError(f'{where}: slice bound `{pf.nsrc(x)}` is not an integer literal')
+                return v
+            step = bound(sl.step)
+            if step not in (None, 1):
+                raise AnalysisError(f'{where}: slice with a step')
+            ops.append(('slice', bound(sl.lower), bound(sl.upper)))
+            cur = cur.value
+            continue
+        if isinstance(cur, ast.Call) and isinstance(cur.func, ast.Attribute) and not cur.keywords:
+            meth, args = cur.func.attr, cur.args
+            consts = [a.value if isinstance(a, ast.Constant) else AnalysisError for a in args]
+            if AnalysisError in consts:
+                raise AnalysisError(f'{where}: `{pf.nsrc(cur)[:60]}` has a non-literal argument')
+            if meth in ('strip', 'lstrip', 'rstrip') and len(consts) <= 1 and all(c is None or isinstance(c, str) for c in consts):
+                ops.append((meth, consts[0] if consts else None))
+            elif meth in ('removeprefix', 'removesuffix') and len(consts) == 1 and isinstance(consts[0], str):
+                ops.append((meth, consts[0]))
+            elif meth == 'replace' and len(consts) == 2 and all(isinstance(c, str) for c in consts):
+                ops.append(('replace', consts[0], consts[1]))
+            elif meth in ('lower', 'upper', 'casefold') and not consts:
+                ops.append((meth,))
+            else:
+                raise AnalysisError(f'{where}: `{pf.nsrc(cur)[:60]}` is not in the table of delimiter-removing operations')
+            cur = cur.func.value
+            continue
+        raise AnalysisError(f'{where}: `{pf.nsrc(cur)[:60]}` is not `node.text` under slice / strip / removeprefix / removesuffix operations')
+
+
+def _single_return(m: pf.Module, meth: ast.FunctionDef, where: str) -> Tuple[ast.AST, str]:
+    """(returned expression with single-assignment locals substituted, name of the node parameter) of a visit method that is straight-line
+    code ending in one return."""
+    params = [a.arg for a in meth.args.args]
+    if len(params) != 3 or meth.args.vararg or meth.args.kwarg or meth.decorator_list:
+        raise AnalysisError(f'{where}: signature is not (self, node, visited_children)')
+    ret = None
+    for st in meth.body:
+        if isinstance(st, ast.Expr) and isinstance(st.value, ast.Constant):
+            continue
+        if isinstance(st, ast.Assign) and len(st.targets) == 1 and isinstance(st.targets[0], ast.Name) and st.targets[0].id not in params \
+                and pf.single_def(meth, st.targets[0].id) is st.value and ret is None:
+            continue
+        if isinstance(st, ast.Return) and st.value is not None and ret is None:
+            ret = st
+            continue
+        raise AnalysisError(f'{where}: not straight-line code ending in one `return` (`{pf.nsrc(st)[:50]}`)')
+    if ret is None:
+        raise AnalysisError(f'{where}: no return')
+    return pf.expand_locals(meth, ret.value), params[1]
+
+
+def check_identifier_visitors(ctx: Ctx, mg: pf.Module, vis: ast.ClassDef, esc: Escaper, delim: str, mirror_ok: bool) -> None:
+    """visit_escaped_identifier must hand unescape_parsable exactly the text between the two delimiters, for every name escape_parsable prints
+    between delimiters; visit_simple_identifier must return every bare name unchanged.  Both are decided in the domain of NAMES: an
+    end-trimming operation goes wrong exactly for the names whose first / last character is emitted as text that begins / ends with a
+    trimmed character - a regular set of names, whose shortest member is the witness."""
+    D = R.CharSet.of(delim)
+    anyc = R.star(R.anychar())
+
+    def printed(name: str) -> str:
+        for b_ in esc.escaped:
+            if R.accepts(b_.guard, name):
+                return delim + encode_with(split_by_width(b_.units), name) + delim
+        return name
+
+    # ---- escaped identifiers
+    cons = f'{F_GRAMMAR}::{vis.name}.visit_escaped_identifier'
+    vm = _method(vis, 'visit_escaped_identifier')
+    ctx.need(vm is not None, f'{F_GRAMMAR}: visit_escaped_identifier vanished')
+    e, node_param = _single_return(mg, vm, cons)  # type: ignore[arg-type]
+    unescapes = isinstance(e, ast.Call) and pf.dotted(e.func) == 'unescape_parsable' and len(e.args) == 1 and not e.keywords
+    if isinstance(e, ast.Call) and not unescapes and not (isinstance(e.func, ast.Attribute)):
+        raise AnalysisError(f'{cons}: `{pf.nsrc(e)[:60]}` is neither unescape_parsable(...) nor an operation on node.text')
+    ops = _removal_ops(e.args[0] if unescapes else e, node_param, cons)  # type: ignore[union-attr]
+    problems: List[str] = []
+
+    def witness(names: R.Lang) -> Optional[str]:
+        return R.shortest(names)
+
+    for b_ in esc.escaped:
+        reach = b_.guard
+        units = b_.units
+        # what happens at each end: ('drop', k) | ('run', CharSet) | ('affix', text); None = nothing removed there
+        left: List[tuple] = []
+        right: List[tuple] = []
+        globals_: List[tuple] = []
+        for op in ops:
+            if op[0] == 'slice':
+                lo, hi = op[1], op[2]
+                if (lo is not None and lo < 0) or (hi is not None and hi >= 0):
+                    raise AnalysisError(f'{cons}: slice [{lo}:{hi}] counts from the other end; not modelled')
+                if lo:
+                    left.append(('drop', lo))
+                if hi:
+                    right.append(('drop', -hi))
+            elif op[0] in ('strip', 'lstrip', 'rstrip'):
+                cs = R.pred('str.isspace') if op[1] is None else R.CharSet.of(op[1])
+                if op[0] != 'rstrip':
+                    left.append(('run', cs))
+                if op[0] != 'lstrip':
+                    right.append(('run', cs))
+            elif op[0] == 'removeprefix':
+                left.append(('affix', op[1]))
+            elif op[0] == 'removesuffix':
+                right.append(('affix', op[1]))
+            else:
+                globals_.append(op)
+        if globals_ and (left or right or len(globals_) > 1):
+            raise AnalysisError(f'{cons}: `{pf.nsrc(e)[:60]}` combines a whole-string operation with end trimming; not modelled')
+        if len(left) > 1 or len(right) > 1:
+            raise AnalysisError(f'{cons}: `{pf.nsrc(e)[:60]}` trims the same end more than once; not modelled')
+        shown = pf.nsrc(e)
+        if globals_:
+            g = globals_[0]
+            if g[0] == 'replace' and g[1] == delim and g[2] == '':
+                inner = _unit_edge_chars(units, D, 'any')
+                w = witness(reach & _contains(inner)) if inner else None
+                if w is not None:
+                    problems.append(f'`{shown}` removes every {delim!r}, also the escaped ones inside the name: the field name {ascii(w)} is printed as '
+                                    f'{ascii(printed(w))} and read back without its {delim!r}')
+                continue
+            raise AnalysisError(f'{cons}: `{shown[:60]}` is not a delimiter-removing operation of the table')
+        for side, acts in (('first', left), ('last', right)):
+            end = 'leading' if side == 'first' else 'trailing'
+            some = witness(reach & R.lang(R.seq(R.anychar(), anyc), 'non-empty'))
+            if not acts:
+                w = witness(reach)
+                if w is not None:
+                    problems.append(f'`{shown}` leaves the {end} delimiter in place: the field name {ascii(w)} is printed as {ascii(printed(w))} and read back with a {delim!r}')
+                continue
+            act = acts[0]
+            if act[0] == 'drop':
+                if act[1] != len(delim) and some is not None:
+                    problems.append(f'`{shown}` drops {act[1]} {end} character(s), the delimiter is {len(delim)}: the field name {ascii(some)} is printed as '
+                                    f'{ascii(printed(some))} and read back as a different name')
+            elif act[0] == 'affix':
+                if act[1] != delim:
+                    raise AnalysisError(f'{cons}: removeprefix / removesuffix of {act[1]!r}, which is not the delimiter; not modelled')
+            else:
+                cs = act[1]
+                if not D.issubset(cs):
+                    w = witness(reach)
+                    if w is not None:
+                        problems.append(f'`{shown}` does not strip the {end} delimiter {delim!r}: the field name {ascii(w)} is printed as {ascii(printed(w))} and read back with it')
+                    continue
+                edge = _unit_edge_chars(units, cs, side)
+                if edge:
+                    names = R.lang(R.seq(R.chars(edge), anyc) if side == 'first' else R.seq(anyc, R.chars(edge)), 'edge')
+                    w = witness(reach & names)
+                    if w is not None:
+                        body = printed(w)[len(delim):-len(delim)]
+                        problems.append(f'`{shown}` strips a RUN of {cs.describe()} at the {end} end, not just the delimiter: the field name {ascii(w)} is printed as '
+                                        f'{ascii(printed(w))}, whose text between the delimiters ({ascii(body)}) {"begins" if side == "first" else "ends"} with a stripped '
+                                        f'character, so the visitor hands on a truncated text and the name does not come back')
+        if not unescapes and not problems:
+            rewritten = R.CharSet([(u.lo, u.hi) for u in units if not (len(u.parts) == 1 and u.parts[0][0] == 'self')])
+            w = witness(reach & _contains(rewritten)) if rewritten else None
+            if w is not None:
+                problems.append(f'`{shown}` returns the text between the delimiters without unescape_parsable: the field name {ascii(w)} is printed as '
+                                f'{ascii(printed(w))} and read back with its escapes')
+    if any(op[0] in ('lower', 'upper', 'casefold') for op in ops):
+        raise AnalysisError(f'{cons}: case mapping of an escaped identifier; not modelled')
+    ctx.check(not problems, 'R3', cons, '; '.join(dict.fromkeys(problems)) + ('' if mirror_ok else ' (and unescape_parsable is not the mirror of escape_parsable, see above)'),
+              mg.path, vm.lineno if vm else 0, detail={'operations': [list(map(str, o)) for o in ops], 'unescape': bool(unescapes)})  # type: ignore[union-attr]
+
+    # ---- simple identifiers: the bare names must come back unchanged
+    cons = f'{F_GRAMMAR}::{vis.name}.visit_simple_identifier'
+    vs = _method(vis, 'visit_simple_identifier')
+    ctx.need(vs is not None, f'{F_GRAMMAR}: visit_simple_identifier vanished')
+    e, node_param = _single_return(mg, vs, cons)  # type: ignore[arg-type]
+    ops = _removal_ops(e, node_param, cons)
+    problem = None
+    shown = pf.nsrc(e)
+    for op in ops:
+        if problem:
+            break
+        if op[0] == 'slice':
+            lo, hi = op[1], op[2]
+            if lo or hi is not None:
+                w = witness(esc.bare)
+                problem = f'`{shown}` cuts the matched text: the bare field name {ascii(w)} comes back shortened' if w is not None else None
+        elif op[0] in ('strip', 'lstrip', 'rstrip'):
+            cs = R.pred('str.isspace') if op[1] is None else R.CharSet.of(op[1])
+            first = R.lang(R.seq(R.chars(cs), anyc), 'begins')
+            last = R.lang(R.seq(anyc, R.chars(cs)), 'ends')
+            hit = (first | last) if op[0] == 'strip' else first if op[0] == 'lstrip' else last
+            w = witness(esc.bare & hit)
+            if w is not None:
+                problem = f'`{shown}` strips {cs.describe()} from a bare name: {ascii(w)} is printed as it is and comes back without it'
+        elif op[0] in ('lower', 'upper', 'casefold'):
+            w = witness(esc.bare & _contains(~sp.fixed_points(op[0])))
+            if w is not None:
+                problem = f'`{shown}` changes the letter case of a bare name: {ascii(w)} comes back as {ascii(getattr(w, op[0])())}'
+        elif op[0] in ('removeprefix', 'removesuffix'):
+            lit_ = R.lit(op[1])
+            w = witness(esc.bare & R.lang(R.seq(lit_, anyc) if op[0] == 'removeprefix' else R.seq(anyc, lit_), 'affix')) if op[1] else None
+            if w is not None:
+                problem = f'`{shown}` removes {op[1]!r} from a bare name: {ascii(w)} comes back without it'
+        elif op[0] == 'replace':
+            if op[1] != op[2] and op[1]:
+                w = witness(esc.bare & R.lang(R.seq(anyc, R.lit(op[1]), anyc), 'contains'))
+                if w is not None:
+                    problem = f'`{shown}` rewrites {op[1]!r} inside a bare name: {ascii(w)} comes back changed'
+    ctx.check(problem is None, 'R3', cons, problem or '', mg.path, vs.lineno if vs else 0)  # type: ignore[union-attr]
+
+
+
 def run(ctx: Ctx) -> None:
     ctx.explanation = ('Escapers are turned into unit tables (code-point range -> emitted text) and compared, as regular languages over all '
                        'Unicode code points, with the Python grammar terminals and with the engine lexer read from Parser.scala; printed '
@@ -2661,7 +3117,7 @@ def _run_semantic(ctx: Ctx, st: Dict[str, Any]) -> None:
         check_printer_memo(ctx, mt, classes)
 
     def r8() -> None:
-        check_visitor_flow(ctx, mg, G, mg.cls('TypeConstructor'))
+        check_visitor_flow(ctx, mg, G, flat_class(mg, mg.cls('TypeConstructor')))
 
     def r8p() -> None:
         sk = Skeleton(mt, Templates(ctx, mt, ['int32'], ['a']))
@@ -2692,28 +3148,74 @@ def _run_lexical(ctx: Ctx, state: Dict[str, Any]) -> None:
     ctx.unit('files', 6)
 
     # ------------------------------------------------------------------ extraction
+    identity_table = [Unit(0, R.MAXCP, [('self',)])]
+
+    def is_param(e: Optional[ast.AST], escaper: Escaper) -> bool:
+        return isinstance(e, ast.Name) and e.id == escaper.param
+
+    def finish(escaper: Escaper) -> Branch:
+        """Restrict every escaping exit's table to the characters of the names that reach it; choose the general exit (the one that rewrites
+        characters; the last one when that does not single one out), whose constructs keep their plain keys."""
+        for b_ in escaper.escaped:
+            b_.chars = occurring_chars(b_.guard)
+            b_.units = restrict_units(b_.units, b_.chars)
+        rew = [b_ for b_ in escaper.escaped if b_.transform != 'identity']
+        primary = rew[0] if len(rew) == 1 else escaper.escaped[-1]
+        for b_ in escaper.escaped:
+            b_.label = '' if b_ is primary else f' [when {b_.when()}]'
+        ctx.need(len({b_.label for b_ in escaper.escaped}) == len(escaper.escaped), f'{escaper.m.rel}::{escaper.name}: two exits under the same condition')
+        return primary
+
     esc = Escaper(ctx, mj, 'escape_parsable')
-    delim, inner = _delimited(ctx, mj, esc.fn, esc.escaped_expr)
-    ops = _pipeline(ctx, mj, esc.fn, inner, esc.param)
-    ctx.need(ops[:1] == [('encode', 'unicodeescape')], f'{F_JAVA}::escape_parsable: the first step is not .encode(\'unicode_escape\') ({ops})')
-    units_p = unicode_escape_units()
-    for op in ops[1:]:
-        if op[0] == 'decode' and op[1] in ('utf8', 'ascii', 'latin1'):
+    delim = esc.escaped[0].delim
+    pipelines: Dict[int, List[tuple]] = {}
+    for b_ in esc.escaped:
+        if is_param(b_.inner, esc):
+            b_.transform, b_.units = 'identity', list(identity_table)
+            pipelines[id(b_)] = []
             continue
-        if op[0] == 'replace':
-            units_p = apply_replace(units_p, op[1], op[2], f'{F_JAVA}::escape_parsable')
-            continue
-        raise AnalysisError(f'{F_JAVA}::escape_parsable: step {op} is not modelled')
+        ops_b = _pipeline(ctx, mj, esc.fn, b_.inner, esc.param)  # type: ignore[arg-type]
+        ctx.need(ops_b[:1] == [('encode', 'unicodeescape')], f'{F_JAVA}::escape_parsable: the first step is not .encode(\'unicode_escape\') ({ops_b})')
+        tab = unicode_escape_units()
+        for op in ops_b[1:]:
+            if op[0] == 'decode' and op[1] in ('utf8', 'ascii', 'latin1'):
+                continue
+            if op[0] == 'replace':
+                tab = apply_replace(tab, op[1], op[2], f'{F_JAVA}::escape_parsable')
+                continue
+            raise AnalysisError(f'{F_JAVA}::escape_parsable: step {op} is not modelled')
+        b_.transform, b_.units = f'pipeline {ops_b}', tab
+        pipelines[id(b_)] = ops_b
+    esc_primary = finish(esc)
+    ops = pipelines[id(esc_primary)]
+    units_p = esc_primary.units
     ctx.unit('code_points_tabulated', R.MAXCP + 1)
 
     eid = Escaper(ctx, mm, 'escape_id')
-    delim_id, inner_id = _delimited(ctx, mm, eid.fn, eid.escaped_expr)
-    ctx.need(isinstance(inner_id, ast.Call) and pf.dotted(inner_id.func) == 'escape_str' and len(inner_id.args) == 1
-             and pf.nsrc(inner_id.args[0]) == eid.param and [(k.arg, pf.nsrc(k.value)) for k in inner_id.keywords] == [('backticked', 'True')],
-             f'{F_MISC}::escape_id: escaped form is not `escape_str(s, backticked=True)` ({pf.nsrc(inner_id)})')
+    delim_id = eid.escaped[0].delim
     es = EscapeStr(ctx, mm)
-    units_id = es.units(True)
-    units_str = es.units(False)
+    es_tables: Dict[bool, List[Unit]] = {}
+    for b_ in eid.escaped:
+        inner_id = b_.inner
+        if is_param(inner_id, eid):
+            b_.transform, b_.units = 'identity', list(identity_table)
+            continue
+        flag: Optional[bool] = None
+        if isinstance(inner_id, ast.Call) and pf.dotted(inner_id.func) == 'escape_str' and 1 <= len(inner_id.args) + len(inner_id.keywords) <= 2 \
+                and inner_id.args and is_param(inner_id.args[0], eid):
+            extra_ = [a_ for a_ in inner_id.args[1:]] + [k.value for k in inner_id.keywords if k.arg == 'backticked']
+            if len(inner_id.args) + len(inner_id.keywords) == 1:
+                flag = False
+            elif len(extra_) == 1 and isinstance(extra_[0], ast.Constant) and isinstance(extra_[0].value, bool):
+                flag = extra_[0].value
+        ctx.need(flag is not None, f'{F_MISC}::escape_id: escaped form is not `escape_str(s, backticked=True)` ({pf.nsrc(inner_id)})')
+        if flag not in es_tables:
+            es_tables[flag] = es.units(flag)  # type: ignore[index]
+        b_.transform, b_.units = f'escape_str(backticked={flag})', list(es_tables[flag])  # type: ignore[index]
+    ctx.need(sp.module_bindings(mm, 'escape_str') and len(sp.module_bindings(mm, 'escape_str')) == 1, f'{F_MISC}: escape_str is not bound exactly once')
+    eid_primary = finish(eid)
+    units_id = eid_primary.units
+    units_str = es_tables[False] if False in es_tables else es.units(False)
     # parsable_strings: '"' + escape_str(s) + '"'
     ps = mm.func('parsable_strings')
     ps_ok = any(isinstance(n, ast.JoinedStr) and len(n.values) == 3 and pf.const_str(n.values[0]) == '"' and pf.const_str(n.values[2]) == '"'
@@ -2758,31 +3260,49 @@ def _run_lexical(ctx: Ctx, state: Dict[str, Any]) -> None:
     # ------------------------------------------------------------------ R2
     L_backtick = scala_quoted_language(ident.get('backtick_delim', '`'), lex['escape_chars'], 'IRLexer.backtickLiteral')
     ctx.need(delim == ident.get('backtick_delim') and delim_id == delim, f'delimiters differ: python {delim!r}/{delim_id!r}, engine {ident.get("backtick_delim")!r}')
-    acc_p = check_units_against(ctx, 'R2', f'{F_JAVA}::escape_parsable -> IRLexer.backtickLiteral', units_p, delim, L_backtick,
-                                f'IRLexer.quotedLiteral (escapeChars {lex["literal"]}, Parser.scala:{lex["line"]})', esc.bare, mj.path, esc.test_line, 'escape_parsable')
+    acc_of: Dict[int, Dict[str, bool]] = {}
+    for b_ in esc.escaped:
+        acc_of[id(b_)] = check_units_against(ctx, 'R2', f'{F_JAVA}::escape_parsable{b_.label} -> IRLexer.backtickLiteral', b_.units, delim, L_backtick,
+                                             f'IRLexer.quotedLiteral (escapeChars {lex["literal"]}, Parser.scala:{lex["line"]})', b_.guard, mj.path,
+                                             esc.test_line if b_ is esc_primary else b_.line, 'escape_parsable' if b_ is esc_primary else f'escape_parsable ({b_.transform}, when {b_.when()})')
+    acc_p = acc_of[id(esc_primary)]
     state['units_p'], state['acc_p'] = units_p, acc_p
     pat_esc, L_esc = G.regex_language('escaped_identifier')
     pfree = R.prefix_free(L_esc)
     ctx.check(pfree is None, 'R2', f'{F_GRAMMAR}::escaped_identifier::prefix-free',
               f'escaped_identifier {pat_esc!r} matches both {_show(pfree[0]) if pfree else ""} and its extension {_show(pfree[1]) if pfree else ""}: the PEG '
               'terminal may stop early or late', mg.path, 0)
-    check_units_against(ctx, 'R2', f'{F_JAVA}::escape_parsable -> type_grammar.escaped_identifier', units_p, delim, L_esc,
-                        f'the grammar terminal escaped_identifier {pat_esc!r}', esc.bare, mj.path, esc.test_line, 'escape_parsable')
-    acc_id = check_units_against(ctx, 'R2', f'{F_MISC}::escape_id -> IRLexer.backtickLiteral', units_id, delim_id, L_backtick,
-                                 f'IRLexer.quotedLiteral (escapeChars {lex["literal"]})', eid.bare, mm.path, eid.test_line, 'escape_id (escape_str, backticked=True)')
+    for b_ in esc.escaped:
+        check_units_against(ctx, 'R2', f'{F_JAVA}::escape_parsable{b_.label} -> type_grammar.escaped_identifier', b_.units, delim, L_esc,
+                            f'the grammar terminal escaped_identifier {pat_esc!r}', b_.guard, mj.path, esc.test_line if b_ is esc_primary else b_.line,
+                            'escape_parsable' if b_ is esc_primary else f'escape_parsable ({b_.transform}, when {b_.when()})')
+    for b_ in eid.escaped:
+        acc_of[id(b_)] = check_units_against(ctx, 'R2', f'{F_MISC}::escape_id{b_.label} -> IRLexer.backtickLiteral', b_.units, delim_id, L_backtick,
+                                             f'IRLexer.quotedLiteral (escapeChars {lex["literal"]})', b_.guard, mm.path, eid.test_line if b_ is eid_primary else b_.line,
+                                             'escape_id (escape_str, backticked=True)' if b_ is eid_primary else f'escape_id ({b_.transform}, when {b_.when()})')
+    acc_id = acc_of[id(eid_primary)]
     L_dq = scala_quoted_language('"', lex['escape_chars'], 'IRLexer.stringLiteral')
     acc_str = check_units_against(ctx, 'R2', f'{F_MISC}::parsable_strings -> IRLexer.stringLiteral', units_str, '"', L_dq,
                                   f'IRLexer.quotedLiteral(\'"\') (escapeChars {lex["literal"]})', None, mm.path, ps.lineno, 'parsable_strings (escape_str)')
-    # whole languages (all combinations of accepted units)
-    for label, units, dl, tgt, acc in (('escape_id', units_id, delim_id, L_backtick, acc_id), ('parsable_strings', units_str, '"', L_dq, acc_str)):
+
+    # whole languages (all combinations of accepted units; exact for an exit that emits the name as it is: delimiter + its guard + delimiter)
+    def whole(b_: Optional[Branch], units: List[Unit], dl: str, acc: Dict[str, bool], label: str) -> R.Lang:
         good = [u for u in split_by_width(units) if acc.get(u.kind(), False)]
-        w = R.included(emitted_language(good, dl, label), tgt) if good else None
-        ctx.check(w is None, 'R2', f'{F_MISC}::{label}::all combinations of accepted units',
+        if b_ is not None and b_.transform == 'identity':
+            ok_chars = R.CharSet([(u.lo, u.hi) for u in good])
+            return R.concat(R.lang(R.lit(dl), 'delimiter'), b_.guard & R.lang(R.star(R.chars(ok_chars)), 'accepted characters'), R.lang(R.lit(dl), 'delimiter'))
+        return emitted_language(good, dl, label) if good else R.nothing()
+    for b_ in eid.escaped:
+        w = R.included(whole(b_, b_.units, delim_id, acc_of[id(b_)], 'escape_id'), L_backtick)
+        ctx.check(w is None, 'R2', f'{F_MISC}::escape_id{b_.label}::all combinations of accepted units',
                   f'units are accepted one by one but the combination {_show(w)} is not', mm.path, 0)
-    good = [u for u in split_by_width(units_p) if acc_p.get(u.kind(), False)]
-    w = R.included(emitted_language(good, delim, 'escape_parsable'), L_backtick)
-    ctx.check(w is None, 'R2', f'{F_JAVA}::escape_parsable::all combinations of accepted units', f'units are accepted one by one but the combination {_show(w)} is not',
-              mj.path, 0)
+    w = R.included(whole(None, units_str, '"', acc_str, 'parsable_strings'), L_dq)
+    ctx.check(w is None, 'R2', f'{F_MISC}::parsable_strings::all combinations of accepted units',
+              f'units are accepted one by one but the combination {_show(w)} is not', mm.path, 0)
+    for b_ in esc.escaped:
+        w = R.included(whole(b_, b_.units, delim, acc_of[id(b_)], 'escape_parsable'), L_backtick)
+        ctx.check(w is None, 'R2', f'{F_JAVA}::escape_parsable{b_.label}::all combinations of accepted units',
+                  f'units are accepted one by one but the combination {_show(w)} is not', mj.path, 0)
 
     # ------------------------------------------------------------------ R5
     def decode_check(label: str, file_: str, path_: str, line_: int, units: List[Unit], dl: str, acc: Dict[str, bool]) -> None:
@@ -2809,8 +3329,10 @@ def _run_lexical(ctx: Ctx, state: Dict[str, Any]) -> None:
                 ctx.bad('R5', cons, f'{label} renders U+{cp:04X} as {ascii(text)}; the lexer accepts it but StringEscapeUtils.unescapeString '
                         f'(\\{arms["unicode_intro"]} reads exactly {arms["unicode_width"]} hex digits) decodes it to {gs} instead of '
                         f'U+{cp:04X} (UTF-16 ' + ' '.join(f'U+{x:04X}' for x in utf16(cp)) + '): the engine sees a different name', path_, line_)
-    decode_check('escape_parsable', F_JAVA, mj.path, esc.test_line, units_p, delim, acc_p)
-    decode_check('escape_id', F_MISC, mm.path, es.loop.lineno, units_id, delim_id, acc_id)
+    for b_ in esc.escaped:
+        decode_check('escape_parsable' + b_.label, F_JAVA, mj.path, esc.test_line if b_ is esc_primary else b_.line, b_.units, delim, acc_of[id(b_)])
+    for b_ in eid.escaped:
+        decode_check('escape_id' + b_.label, F_MISC, mm.path, es.loop.lineno if b_ is eid_primary else b_.line, b_.units, delim_id, acc_of[id(b_)])
     decode_check('parsable_strings', F_MISC, mm.path, es.loop.lineno, units_str, '"', acc_str)
 
     # ------------------------------------------------------------------ R3
@@ -2830,20 +3352,9 @@ def _run_lexical(ctx: Ctx, state: Dict[str, Any]) -> None:
     ctx.check(uops == want, 'R3', f'{F_JAVA}::unescape_parsable::mirror of escape_parsable',
               f'escape_parsable applies {ops}; its inverse is {want}, but unescape_parsable applies {uops}: a printed name does not come back unchanged '
               f'(e.g. a name containing {delim!r} or a backslash)', mj.path, une.lineno, detail={'escape': [list(o) for o in ops], 'unescape': [list(o) for o in uops]})
-    # the visitor strips exactly the delimiters
-    vis = mg.cls('TypeConstructor')
-    vm = _method(vis, 'visit_escaped_identifier')
-    ctx.need(vm is not None, f'{F_GRAMMAR}: visit_escaped_identifier vanished')
-    rets = [n for n in ast.walk(vm) if isinstance(n, ast.Return)]  # type: ignore[arg-type]
-    ok = len(rets) == 1 and pf.nsrc(rets[0].value) == f'unescape_parsable(node.text[{len(delim)}:-{len(delim)}])'
-    ctx.check(ok, 'R3', f'{F_GRAMMAR}::TypeConstructor.visit_escaped_identifier',
-              f'returns `{pf.nsrc(rets[0].value) if rets else "?"}`, expected unescape_parsable(node.text[1:-1]) (strip the two back-ticks, then unescape)',
-              mg.path, vm.lineno if vm else 0)
-    vs = _method(vis, 'visit_simple_identifier')
-    ctx.need(vs is not None, f'{F_GRAMMAR}: visit_simple_identifier vanished')
-    rets = [n for n in ast.walk(vs) if isinstance(n, ast.Return)]  # type: ignore[arg-type]
-    ctx.check(len(rets) == 1 and pf.nsrc(rets[0].value) == 'node.text', 'R3', f'{F_GRAMMAR}::TypeConstructor.visit_simple_identifier',
-              f'returns `{pf.nsrc(rets[0].value) if rets else "?"}`, expected the matched text unchanged', mg.path, vs.lineno if vs else 0)
+    # the visitor strips exactly the delimiters (decided on the language of the printed names, see check_identifier_visitors)
+    vis = flat_class(mg, mg.cls('TypeConstructor'))
+    check_identifier_visitors(ctx, mg, vis, esc, delim, uops == want)
     ctx.need(sp.imports_of(mg).get('unescape_parsable', '').endswith('utils.java.unescape_parsable'), f'{F_GRAMMAR}: unescape_parsable is not imported from hail.utils.java')
     ctx.need(sp.imports_of(mt).get('escape_parsable', '').endswith('utils.java.escape_parsable'), f'{F_TYPES}: escape_parsable is not imported from utils.java')
     # every name printed goes through escape_parsable
